@@ -403,6 +403,14 @@ def cases(shard, nshards, seed, tier):
             for gaps in (False, True):
                 if mine():
                     yield {"family": "own-annotation-" + ops[0]["op"], "file": fn, "gaps": gaps, "ops": ops}
+    # the command-line tool against the library on the same file: what it prints (default, -e, -a) and the BPSEQ file
+    # it writes must be the library's texts - corpus files as deposited (4qln.cif has nucleotide-like ligands outside the
+    # polymer entity) and PDB text of structures whose chains are not contiguous
+    for fn, ops in [("tests/4qln.cif", []), ("tests/4qln.pdb", []), ("tests/1ehz-assembly-1.cif", []), ("tests/488d.pdb", []), ("tests/488d.pdb", [{"op": "split-chain", "tail": 4}]),
+                    ("tests/4WTI_1_T-P.cif", [{"op": "split-chain", "tail": 2}]), ("tests/1JJP.cif", [{"op": "split-chain", "tail": 3}]), ("tests/1E7K_1_C.cif", [])]:
+        for flags in ([], ["-e"], ["-a"], ["-f"], ["-f", "-e"]):
+            if mine():
+                yield {"family": "cli-vs-library", "file": fn, "ops": ops, "flags": flags}
     n = 600 if tier == "quick" else 15000
     for i in range(n):
         if mine():
@@ -484,7 +492,68 @@ def random_list(rng, s):
     return out
 
 
+def _cli_vs_library(case, rec):
+    import contextlib
+    import io
+    import shutil
+    import sys
+    import tempfile
+
+    from rnapolis import annotator, parser
+    from rnapolis.util import handle_input_file
+    from vmon import emit
+
+    d = tempfile.mkdtemp(prefix="vmon-c06-")
+    try:
+        if case["ops"]:
+            rows = emit.rows_from_structure(gen3d.apply_ops(gen3d.load(case["file"]), case["ops"]))
+            if not emit.fits_pdb(rows):
+                rec.skip("cli.stdout-equals-library", "outside PDB limits")
+                return
+            path = os.path.join(d, "input.pdb")
+            open(path, "w").write(emit.emit_pdb(rows))
+        else:
+            path = os.path.join(core.REPO, case["file"])
+        flags = case["flags"]
+        gaps, alld = "-f" in flags, "-a" in flags
+        s = parser.read_3d_structure(handle_input_file(path), None)
+        s2d, dbs = annotator.extract_secondary_structure(s, None, gaps, alld)
+        if "-e" in flags:
+            want = s2d.extendedDotBracket + "\n"
+        elif alld:
+            want = "".join(x + "\n" for x in dbs)
+        else:
+            want = s2d.dotBracket + "\n"
+        pb = os.path.join(d, "out.bpseq")
+        old, buf = sys.argv, io.StringIO()
+        sys.argv = ["annotator"] + flags + ["--bpseq", pb, path]
+        try:
+            with contextlib.redirect_stdout(buf):
+                annotator.main()
+            err = None
+        except BaseException as e:
+            err = repr(e)
+        finally:
+            sys.argv = old
+        got = buf.getvalue()
+        rec.mark_nontrivial(True)
+        det = lambda extra=None: {"file": case["file"], "ops": case["ops"], "flags": flags, "error": err, "info": extra}
+        if got != want:
+            la, lb = want.splitlines(), got.splitlines()
+            k = next((i for i, (x, y) in enumerate(zip(la, lb)) if x != y), min(len(la), len(lb)))
+            diff = {"line": k + 1, "library": la[k][:160] if k < len(la) else None, "cli": lb[k][:160] if k < len(lb) else None}
+        else:
+            diff = None
+        rec.check("cli.stdout-equals-library", err is None and diff is None, lambda: det(diff))
+        wb = open(pb).read() if os.path.exists(pb) else None
+        rec.check("cli.bpseq-file-equals-library", wb is not None and wb.strip() == s2d.bpseq.strip(), lambda: det({"file-lines": None if wb is None else len(wb.splitlines()), "library-lines": len(s2d.bpseq.splitlines())}))
+    finally:
+        shutil.rmtree(d, ignore_errors=True)
+
+
 def run_case(case, rec):
+    if case["family"] == "cli-vs-library":
+        return _cli_vs_library(case, rec)
     from rnapolis import annotator, tertiary
 
     seed = os.environ.get("VERIF_SEED", "0")
